@@ -127,8 +127,8 @@ ExecStep(rs, line) ==
     [] line.k = "macro"  -> [rs EXCEPT !.rec = line.n, !.body = << >>]
     [] line.k = "exit"   -> [rs EXCEPT !.stop = TRUE]
     [] line.k \in {"message", "warning"} ->
-         [rs EXCEPT !.msgs = Append(@, [k |-> line.k, txt |-> line.txt, ln |-> line.ln])]
-    [] line.k = "error"  -> Fail([rs EXCEPT !.msgs = Append(@, [k |-> line.k, txt |-> line.txt, ln |-> line.ln])], line.ln)
+         [rs EXCEPT !.msgs = Append(@, [k |-> line.k, txt |-> line.txt, ln |-> line.ln, at |-> line.ln])]
+    [] line.k = "error"  -> Fail([rs EXCEPT !.msgs = Append(@, [k |-> line.k, txt |-> line.txt, ln |-> line.ln, at |-> line.ln])], line.ln)
     [] OTHER -> Fail(rs, line.ln)     \* garbage, a stray .endm, anything that is not assembly
 
 (* One line.  Order matters and mirrors the language: a macro body is      *)
@@ -165,7 +165,9 @@ ExpandSeq(rs, items, i, depth) ==           \* rs.items accumulates the expanded
        ELSE LET body == [j \in 1..Len(rs.macros[it.n]) |-> SubstLine(rs.macros[it.n][j], it.args)] IN
             LET r1 == ReadLines([rs EXCEPT !.items = << >>, !.cond = << >>], body)
                      r2 == ExpandSeq([r1 EXCEPT !.items = rs.items, !.cond = rs.cond], r1.items, 1, depth - 1)
-            IN ExpandSeq(r2, items, i + 1, depth)
+                     \* the messages this call produced (its own and those of the calls in its body) stand where the call stands
+                     r3 == [r2 EXCEPT !.msgs = [j \in 1..Len(r2.msgs) |-> IF j <= Len(rs.msgs) THEN r2.msgs[j] ELSE [r2.msgs[j] EXCEPT !.at = it.ln]]]
+            IN ExpandSeq(r3, items, i + 1, depth)
 ExpandAll(rs) == IF rs.err # 0 THEN rs ELSE ExpandSeq([rs EXCEPT !.items = << >>], rs.items, 1, MaxDepth)
 
 -----------------------------------------------------------------------------
@@ -306,6 +308,15 @@ EmitFrom(es, items, pos, i, cx) == EmitRange(es, items, pos, i, Len(items), cx)
 
 Failure(ln, phase) == [ok |-> FALSE, line |-> ln, phase |-> phase]
 
+(* Messages are listed in source order: a message of a macro body stands   *)
+(* where the (outermost) call stands, before the messages of later lines.  *)
+(* Reading and expanding are two phases (as in the implementation), so the *)
+(* list is put in order by the line each message came into being at; the   *)
+(* order of messages of one call is the order of its expansion.            *)
+SourceOrder(m) ==
+  LET idx == SortSeq([i \in 1..Len(m) |-> i], LAMBDA a, b : m[a].at < m[b].at \/ (m[a].at = m[b].at /\ a < b))
+  IN [j \in 1..Len(m) |-> m[idx[j]]]
+
 Finish(r1, mat) ==
   IF r1.err # 0 THEN Failure(r1.err, "read")
   ELSE
@@ -322,7 +333,7 @@ Finish(r1, mat) ==
      ELSE [ok |-> TRUE, code |-> em.img.code, eeprom |-> em.img.eeprom,
            codelen |-> codelen, eeplen |-> em.end.eeprom,
            sizes |-> <<dev.flash, dev.eeprom, dev.ramsize>>, ramfill |-> ramfill,
-           msgs |-> r1.msgs, labels |-> lay.labels]
+           msgs |-> SourceOrder(r1.msgs), labels |-> lay.labels]
 
 Run(prog, devs, mat) == Finish(ExpandAll(ReadLines(InitRead(devs), prog)), mat)
 
